@@ -230,24 +230,25 @@ def generate(tier, rng, around=None):
     cases = []
     if tier == 'widen':
         cases += list(around or [])
-    pids = ['A', 'B']
+    # ids that are textual prefixes of one another: a file-name / glob based store must still keep them apart
+    pids = ['A', 'AB']
     # systematic short histories: every op after a fixed prefix of saves
-    prefix = [['save', 'A', None], ['progress', 'A'], ['save', 'A', 't1'], ['save', 'B', 't1'], ['progress', 'A'], ['progress', 'B']]
-    singles = [['save', 'A', None], ['save', 'A', 't1'], ['save', 'B', 't2'], ['load', 'A', None], ['load', 'A', 't1'], ['load', 'B', None],
-               ['load', 'B', 't1'], ['mutate_loaded', 'A', None], ['mutate_loaded', 'A', 't1'], ['list'], ['list_pid', 'A'], ['list_pid', 'B'],
-               ['list_pid', 'C'], ['delete', 'A', None], ['delete', 'A', 't2'], ['delete', 'B', 't1'], ['delete_pid', 'A'], ['delete_pid', 'C'],
+    prefix = [['save', 'A', None], ['progress', 'A'], ['save', 'A', 't1'], ['save', 'AB', 't1'], ['progress', 'A'], ['progress', 'AB']]
+    singles = [['save', 'A', None], ['save', 'A', 't1'], ['save', 'AB', 't2'], ['load', 'A', None], ['load', 'A', 't1'], ['load', 'AB', None],
+               ['load', 'AB', 't1'], ['mutate_loaded', 'A', None], ['mutate_loaded', 'A', 't1'], ['list'], ['list_pid', 'A'], ['list_pid', 'AB'],
+               ['list_pid', 'ABC'], ['delete', 'A', None], ['delete', 'A', 't2'], ['delete', 'AB', 't1'], ['delete_pid', 'A'], ['delete_pid', 'ABC'],
                ['progress', 'A']]
     if tier != 'widen':
         for a, b in itertools.product(singles, singles):
-            tail = [['load', 'A', None], ['load', 'A', 't1'], ['load', 'B', 't1'], ['list']]
+            tail = [['load', 'A', None], ['load', 'A', 't1'], ['load', 'AB', 't1'], ['list']]
             cases.append({'pids': pids, 'hist': prefix + [a, b] + tail})
         if tier == 'thorough':
             for a, b, c in itertools.product(singles[3:], repeat=3):
                 if rng.random() < 0.25:
-                    cases.append({'pids': pids, 'hist': prefix + [a, b, c, ['load', 'A', None], ['load', 'B', 't1'], ['list']]})
+                    cases.append({'pids': pids, 'hist': prefix + [a, b, c, ['load', 'A', None], ['load', 'AB', 't1'], ['list']]})
     n_rand = {'quick': 250, 'thorough': 2500, 'widen': 1500}[tier]
     for i in range(n_rand):
-        ps = pids if i % 4 else [1, 2]
+        ps = [pids, [1, 12], ['A', 'B'], [1, 2]][i % 4]
         cases.append({'pids': ps, 'hist': rand_hist(rng, ps, rng.randint(4, 40 if tier != 'quick' else 25))})
     return {'cases': cases, 'exhaustive': tier != 'widen',
             'scope': 'a fixed 6-operation prefix followed by every ordered pair of 19 operations (saves, loads, progress, mutation of a loaded checkpoint, listings, deletions) and 4 closing reads'}
